@@ -34,7 +34,10 @@ def main():
     idx = json.load(open(os.path.join(ROOT, "mutants/index.json"))) if os.path.exists(os.path.join(ROOT, "mutants/index.json")) else {}
     jobs = []
     for name, m in sorted(idx.items()):
-        props = [p for p in m["props"] if not args or p in args]
+        mp = m["props"]
+        if mp == ["all"]:
+            mp = ["C%02d" % i for i in range(1, 21)]
+        props = [p for p in mp if not args or p in args]
         if props:
             jobs.append((name, os.path.join(ROOT, "mutants", name + ".patch"), props, m))
     sd = os.path.join(ROOT, "seeded")
